@@ -546,7 +546,31 @@ func finalHandshake(w *World, x *vrt.Exec) {
 			w.endAt-w.lastFaultAt, cs, ss)
 		return
 	}
+	// Both sides still in their handshake although the transport has been
+	// reliable for 30 s: the attempt neither succeeded nor failed with an
+	// error on either side ("once the transport behaves a handshake
+	// succeeds"). The client is the side that has to keep retrying.
+	if cs == "handshaking" && ss == "handshaking" {
+		w.fail("handshake/both-stuck",
+			"%v after the last fault, with a reliable transport, client and server are both still waiting in their handshakes and no call has reported an error (client SYNs on the wire in the last 20 s: %d)",
+			w.endAt-w.lastFaultAt, recentSYNs(w, 20*time.Second))
+		return
+	}
 	w.reached["visible-failure"] = true
+}
+
+// recentSYNs counts the SYN packets the client put on the wire in the last d
+// of the run.
+func recentSYNs(w *World, d time.Duration) int {
+	n := 0
+	w.c2s.mu.Lock()
+	defer w.c2s.mu.Unlock()
+	for _, r := range w.c2s.wire {
+		if len(r.Data) > 0 && r.Data[0] == gbn.SYN && r.At >= w.endAt-d {
+			n++
+		}
+	}
+	return n
 }
 
 // monQuiet is oracle (c) of C06: once everything has been delivered and
